@@ -9,8 +9,8 @@ import OpcuaModel.Model.SrvHandlersLemmas
   handlers; which handler looks the session up and which one compares it with
   nil is read from the regenerated table `Gen.SrvSession.handlers` (C35_table).
 
-  On the unchanged code the property is FALSE for every implemented non-exempt
-  service except Publish, for the 23 stub services (they answer
+  On the current code the property is FALSE for Read, Write and Browse (no
+  session lookup at all), for the 23 stub services (they answer
   BadServiceUnsupported, not a session error) and, for a created but never
   activated session, for every service (there is no activation flag at all:
   C35_activation_is_ghost).  Each family has a machine-checked counterexample
@@ -46,13 +46,13 @@ theorem C35_table :
        ("QueryFirstRequest", true, "none", false), ("QueryNextRequest", true, "none", false),
        ("ReadRequest", false, "none", false), ("HistoryReadRequest", true, "none", false),
        ("WriteRequest", false, "none", false), ("HistoryUpdateRequest", true, "none", false),
-       ("CallRequest", true, "none", false), ("CreateSubscriptionRequest", false, "session", false),
+       ("CallRequest", true, "none", false), ("CreateSubscriptionRequest", false, "session", true),
        ("ModifySubscriptionRequest", true, "none", false), ("SetPublishingModeRequest", true, "none", false),
        ("PublishRequest", false, "session", true), ("RepublishRequest", true, "none", false),
-       ("TransferSubscriptionsRequest", true, "none", false), ("DeleteSubscriptionsRequest", false, "session", false),
-       ("CreateMonitoredItemsRequest", false, "session", false), ("ModifyMonitoredItemsRequest", true, "none", false),
-       ("SetMonitoringModeRequest", false, "session", false), ("SetTriggeringRequest", true, "none", false),
-       ("DeleteMonitoredItemsRequest", false, "session", false)] ∧
+       ("TransferSubscriptionsRequest", true, "none", false), ("DeleteSubscriptionsRequest", false, "session", true),
+       ("CreateMonitoredItemsRequest", false, "session", true), ("ModifyMonitoredItemsRequest", true, "none", false),
+       ("SetMonitoringModeRequest", false, "session", true), ("SetTriggeringRequest", true, "none", false),
+       ("DeleteMonitoredItemsRequest", false, "session", true)] ∧
     dispatcherLookup = "none" ∧ dispatcherNilChecked = false ∧ subIdByLen = false := by decide
 
 /-- the 14 services the server implements; everything else is a stub -/
@@ -75,14 +75,22 @@ theorem C35_exempt_answered (st : St) (t : Tok) (k : Tok) (c : CertCls) :
   · simp [step, Req.name, handlerOf_getEndpoints, body]
   · simp [step, Req.name, handlerOf_createSession, body]
 
-/-- The two handlers that compare the looked-up session with nil refuse a token that is
-    not in the session table with a session error and change nothing. -/
-theorem C35_checked_services (st : St) (t : Tok) (h : findSession st t = none) (sec ok : Bool) :
+/-- The handlers that compare the looked-up session with nil — Publish, ActivateSession and, since the
+    nil-session repair, the subscription and monitored-item services — refuse a token that is not in
+    the session table with a session error and change nothing. -/
+theorem C35_checked_services (st : St) (t : Tok) (h : findSession st t = none) (sec ok : Bool)
+    (iv : Interval) (ids : List Nat) (sub n : Nat) :
     step st t .publish = (st, .sessionErr) ∧
-    step st t (.activateSession sec ok) = (st, .sessionErr) := by
-  constructor
-  · simp [step, Req.name, handlerOf_publish, h]
-  · simp [step, Req.name, handlerOf_activateSession, h]
+    step st t (.activateSession sec ok) = (st, .sessionErr) ∧
+    step st t (.createSubscription iv) = (st, .sessionErr) ∧
+    step st t (.deleteSubscriptions ids) = (st, .sessionErr) ∧
+    step st t (.createMonitoredItems sub n) = (st, .sessionErr) ∧
+    step st t (.setMonitoringMode ids) = (st, .sessionErr) ∧
+    step st t (.deleteMonitoredItems ids) = (st, .sessionErr) := by
+  refine ⟨?_, ?_, ?_, ?_, ?_, ?_, ?_⟩ <;>
+    simp [step, Req.name, handlerOf_publish, handlerOf_activateSession, handlerOf_createSubscription,
+      handlerOf_deleteSubscriptions, handlerOf_createMonitoredItems, handlerOf_setMonitoringMode,
+      handlerOf_deleteMonitoredItems, h]
 
 /-- the guard under which C35 holds: the handler looks the session up and nil-checks it
     (per the regenerated table) and the token is not in the session table -/
@@ -124,12 +132,13 @@ theorem C35_read_write_unchecked (st : St) (t : Tok) (v : Int) (h : st.accessAtt
     step st t (.write v) = ({ st with value := v }, .ok "Good") := by
   constructor <;> simp [step, Req.name, handlerOf_read, handlerOf_write, body, accessCheck, h]
 
-/-- CreateSubscription creates a subscription for any token; without a session its owner is nil. -/
-theorem C35_createSubscription_unchecked (st : St) (t : Tok) :
+/-- CreateSubscription for a token in the session table creates a subscription owned by that session
+    (whether or not the session was ever activated). -/
+theorem C35_createSubscription_owned (st : St) (t : Tok) (x : Session) (h : findSession st t = some x) :
     step st t (.createSubscription .huge) =
-      ({ st with subs := putSub st.subs ⟨st.lastSub + 1, (findSession st t).map (·.token)⟩, lastSub := st.lastSub + 1 }, .ok "") := by
-  have h : subIdByLen = false := by decide
-  simp [step, Req.name, handlerOf_createSubscription, body, h]
+      ({ st with subs := putSub st.subs ⟨st.lastSub + 1, some x.token⟩, lastSub := st.lastSub + 1 }, .ok "") := by
+  have hb : subIdByLen = false := by decide
+  simp [step, Req.name, handlerOf_createSubscription, body, effectiveInterval, h, hb]
 
 /-- A stub service answers BadServiceUnsupported (not a session error) and changes nothing. -/
 theorem C35_stub_unsupported (st : St) (t : Tok) (n : String)
@@ -167,23 +176,22 @@ theorem C35_finding_browse :
     step st1 0 (.browse .plain false) = (st1, .ok "Good") ∧
     classify35 st1 0 (.browse .plain false) = "C35.browse-without-session" := by decide
 
-/-- finding C35.subscription-without-session: CreateSubscription without a session creates
-    subscription 2 with a nil owner; DeleteSubscriptions answers per-id results. -/
-theorem C35_finding_subscription :
-    step st1 0 (.createSubscription .huge) = ({ st1 with subs := [⟨1, some 1⟩, ⟨2, none⟩], lastSub := 2 }, .ok "") ∧
-    step st1 0 (.deleteSubscriptions [7]) = (st1, .ok "BadSubscriptionIDInvalid") ∧
-    (step st1 0 (.deleteSubscriptions [1])).2 = .crash "SubscriptionService.DeleteSubscriptions" ∧
-    classify35 st1 0 (.createSubscription .huge) = "C35.subscription-without-session" := by decide
+/-- repaired (was finding C35.subscription-without-session): CreateSubscription and
+    DeleteSubscriptions without a session are refused with a session error and change nothing —
+    no subscription with a nil owner can be created any more. -/
+theorem C35_repaired_subscription :
+    step st1 0 (.createSubscription .huge) = (st1, .sessionErr) ∧
+    step st1 0 (.deleteSubscriptions [7]) = (st1, .sessionErr) ∧
+    step st1 0 (.deleteSubscriptions [1]) = (st1, .sessionErr) ∧
+    step st1 77 (.createSubscription .small) = (st1, .sessionErr) := by decide
 
-/-- finding C35.monitoreditems-without-session: not a session error but BadUnexpectedError /
-    Good, or a crash when an id exists. -/
-theorem C35_finding_monitoreditems :
-    step st1 0 (.createMonitoredItems 7 1) = (st1, .fault "BadUnexpectedError") ∧
-    step st1 0 (.setMonitoringMode []) = (st1, .ok "") ∧
-    step st1 0 (.deleteMonitoredItems []) = (st1, .ok "") ∧
-    (step st1 0 (.createMonitoredItems 1 1)).2 = .crash "MonitoredItemService.CreateMonitoredItems" ∧
-    (step st1 0 (.setMonitoringMode [1])).2 = .crash "MonitoredItemService.SetMonitoringMode" ∧
-    classify35 st1 0 (.setMonitoringMode []) = "C35.monitoreditems-without-session" := by decide
+/-- repaired (was finding C35.monitoreditems-without-session) -/
+theorem C35_repaired_monitoreditems :
+    step st1 0 (.createMonitoredItems 7 1) = (st1, .sessionErr) ∧
+    step st1 0 (.createMonitoredItems 1 1) = (st1, .sessionErr) ∧
+    step st1 0 (.setMonitoringMode []) = (st1, .sessionErr) ∧
+    step st1 0 (.setMonitoringMode [1]) = (st1, .sessionErr) ∧
+    step st1 0 (.deleteMonitoredItems [1]) = (st1, .sessionErr) := by decide
 
 /-- finding C35.unsupported-without-session: a stub answers BadServiceUnsupported, not a session error. -/
 theorem C35_finding_unsupported :
@@ -197,6 +205,7 @@ theorem C35_finding_not_activated :
     validToken st1 2 = false ∧ notActivated st1 2 = true ∧
     step st1 2 .publish = ({ st1 with sessions := [⟨1, true, 0, true⟩, ⟨2, false, 1, true⟩] }, .noResponse) ∧
     step st1 2 (.write 9) = ({ st1 with value := 9 }, .ok "Good") ∧
+    (step st1 2 (.createSubscription .huge)).2 = .ok "" ∧
     classify35 st1 2 .publish = "C35.not-activated-session-accepted" := by decide
 
 /-- the property at full strength does not hold for the code as it is -/
